@@ -84,6 +84,11 @@ fn one(rep: &mut Reporter, seed: u64, thorough: bool) {
     let mut inventory_reported = false;
     // repositories that entered the node's inventory while they were public
     let mut was_public_in_inventory: Vec<bool> = repos.iter().map(|r| r.private.is_none()).collect();
+    // the same, but counted from the last (re)start only: `initialize` drops the private repositories from
+    // the routing table, so an inventory announcement *created* after a restart may only leak what was
+    // public at or after that restart
+    let mut public_since_restart: Vec<bool> = was_public_in_inventory.clone();
+    let mut restart_ms: u64 = 0;
     svc::drain(&mut node);
 
     for step in 0..nsteps {
@@ -145,11 +150,16 @@ fn one(rep: &mut Reporter, seed: u64, thorough: bool) {
                     json!({"elapse+wake": true})
                 }
                 80..=84 => {
+                    // the clock moves before a restart, so that announcements created by this start have
+                    // strictly later timestamps than anything created before it
+                    node.service.clock_mut().elapse(LocalDuration::from_secs(2));
                     let now = *node.service.clock();
                     node.service.initialize(now).ok();
                     for (k, r) in repos.iter().enumerate() {
                         was_public_in_inventory[k] |= r.private.is_none();
+                        public_since_restart[k] = r.private.is_none();
                     }
+                    restart_ms = now.as_millis() as u64;
                     json!({"restart(initialize)": true})
                 }
                 85..=92 => {
@@ -174,6 +184,7 @@ fn one(rep: &mut Reporter, seed: u64, thorough: bool) {
                         let (tx, _rx) = crossbeam_channel::bounded(1);
                         node.service.command(Command::AddInventory(repos[k].rid, tx));
                         was_public_in_inventory[k] = true;
+                        public_since_restart[k] = true;
                         json!({"add_inventory": k})
                     } else {
                         json!({"noop": "add_inventory-of-private-repo-not-generated"})
@@ -228,7 +239,10 @@ fn one(rep: &mut Reporter, seed: u64, thorough: bool) {
                                 if let Some(repo) = repos.iter().find(|x| x.rid == *rid) {
                                     if repo.private.is_some() {
                                         let k = repos.iter().position(|x| x.rid == *rid).unwrap();
-                                        let sig = if was_public_in_inventory[k] {
+                                        let created_after_restart = *inv.timestamp >= restart_ms && restart_ms > 0;
+                                        let sig = if created_after_restart && !public_since_restart[k] {
+                                            "C11/private-repository-in-own-inventory-announcement/created-after-a-restart-at-which-it-was-private"
+                                        } else if was_public_in_inventory[k] {
                                             "C11/private-repository-in-own-inventory-announcement/made-private-after-it-was-announced-as-public"
                                         } else {
                                             "C11/private-repository-in-own-inventory-announcement"
